@@ -242,7 +242,12 @@ def contract(name, attrs, info, fixture_src):
         req.append(('tlru_cfg', 'old(__cache).policy is TLRU ==> tlru_cfg_ok(old(__cache).ttl, old(__cache).frequency_weight)'))
         if has_mem:
             req += [('counters_far_from_saturation', 'freq_far(%s)' % M0)]
-    ens = [('post_wf', ['C04', 'C01'], 'wf(%s, %s)' % (M1, Q1))]
+    ens = [('post_wf', ['C04', 'C01'], 'wf(%s, %s)' % (M1, Q1)),
+           # C15 at the macro level: one call = one lookup = exactly one counter, a hit exactly when an unexpired entry was found
+           # (the stale-entry path of invalidate_on counts as the hit it was; stores and predicates count nothing)
+           ('one_lookup_counted_per_call', ['C15'],
+            'final(__cache).stats.hits.v == (if %s { old(__cache).stats.hits.v.wrapping_add(1) } else { old(__cache).stats.hits.v }) '
+            '&& final(__cache).stats.misses.v == (if %s { old(__cache).stats.misses.v } else { old(__cache).stats.misses.v.wrapping_add(1) })' % (HIT, HIT))]
     inval, cif, res = attrs.get('invalidate_on'), attrs.get('cache_if'), attrs['is_result']
     sync_result_ok = ' && ret is Ok' if (res and info['scope'] != 'async') else ''
     if inval:
